@@ -129,7 +129,8 @@ def concretize(v: Any, ev: Callable[[Any], Any], live: bool) -> Any:
             return SObj(v.cls, {k: concretize(x, ev, live) for k, x in v.fields.items()}, owner=-1, tag=v.tag)
         o = object.__new__(v.cls)
         for k, x in v.fields.items():
-            object.__setattr__(o, k, concretize(x, ev, live))
+            if not k.startswith("$"):
+                object.__setattr__(o, k, concretize(x, ev, live))
         return o
     if isinstance(v, tuple):
         return tuple(concretize(x, ev, live) for x in v)
@@ -165,6 +166,7 @@ class Contract:
     name: str = ""
     args: list[tuple[str, Gen]] = field(default_factory=list)
     kwargs: list[tuple[str, Gen]] = field(default_factory=list)
+    ghosts: list[tuple[str, Gen]] = field(default_factory=list)
     pre: list[Callable[[Any], Any]] = field(default_factory=list)
     cases: list[Case] = field(default_factory=list)
     loops: dict[tuple[str, int], LoopSpec] = field(default_factory=dict)
@@ -180,7 +182,11 @@ class Contract:
     bind: str = "auto"  # how the target is called: 'auto' resolves attribute on class / module
     post_writes: Callable[[Any, Any], Any] | None = None
     known: str = ""
+    ground: Callable[[], Any] | None = None  # G-mode: finite domain enumerated completely (list of input dicts)
+    ground_chunks: int = 1
+    ground_interp_stride: int = 101
     crosscheck: int = 12
+    setup_in_crosscheck: bool = False
 
     # -- fluent helpers
     def arg(self, name: str, gen: Gen) -> "Contract":
@@ -189,6 +195,11 @@ class Contract:
 
     def kwarg(self, name: str, gen: Gen) -> "Contract":
         self.kwargs.append((name, gen))
+        return self
+
+    def ghost(self, name: str, gen: Gen) -> "Contract":
+        """An input that only the contract sees (not passed to the function)."""
+        self.ghosts.append((name, gen))
         return self
 
     def requires(self, f: Callable[[Any], Any]) -> "Contract":
